@@ -90,6 +90,7 @@ type World struct {
 	notes      []string
 	log        []string // vrt.Trace output of this path
 	steps      int
+	vtime      int64 // virtual time (ns): advances to the deadline of a timer when the timer fires lazily
 	preempts   int
 	unknowns   int
 	inconc     string
